@@ -124,6 +124,7 @@ impl Frame {
 #[derive(PartialEq,Debug,Clone)]
 pub struct Environment {
     locals: HashMap<(Scope, String), LocalFrameIndex>,
+    hidden: HashSet<(Scope, String)>,
     scopes: Vec<Scope>,
     scope_sequence: Scope,
     unique_number: usize,
@@ -131,7 +132,7 @@ pub struct Environment {
 
 impl Environment {
     pub fn new() -> Self {
-        Environment { locals: HashMap::new(), scopes: vec!(0), scope_sequence: 0, unique_number: 0 }
+        Environment { locals: HashMap::new(), hidden: HashSet::new(), scopes: vec!(0), scope_sequence: 0, unique_number: 0 }
     }
 
     pub fn from_locals(locals: Vec<String>) -> Self {
@@ -141,7 +142,7 @@ impl Environment {
             local_map.insert((0, local), LocalFrameIndex::from_usize(i));
         }
 
-        Environment { locals: local_map, scopes: vec!(0), scope_sequence: 0, unique_number: 0 }
+        Environment { locals: local_map, hidden: HashSet::new(), scopes: vec!(0), scope_sequence: 0, unique_number: 0 }
     }
 
 
@@ -152,7 +153,7 @@ impl Environment {
             local_map.insert((level, local), LocalFrameIndex::from_usize(i));
         }
 
-        Environment { locals: local_map, scopes: vec!(0), scope_sequence: level + 1, unique_number: 0 }
+        Environment { locals: local_map, hidden: HashSet::new(), scopes: vec!(0), scope_sequence: level + 1, unique_number: 0 }
     }
 
     fn current_scope(&self) -> Scope {
@@ -182,6 +183,7 @@ impl Environment {
     fn register_local(&mut self, id: &str) -> LocalFrameIndex {
         for scope in self.scopes.iter().rev() {
             let key = (*scope, id.to_owned());
+            if self.hidden.contains(&key) { continue }
             if let Some(index) = self.locals.get(&key) {
                 return *index;
             }
@@ -195,7 +197,8 @@ impl Environment {
 
     fn has_local(&self, id: &str) -> bool {
         for scope in self.scopes.iter().rev() {
-            if self.locals.contains_key(&(*scope, id.to_string())) {
+            let key = (*scope, id.to_string());
+            if self.locals.contains_key(&key) && !self.hidden.contains(&key) {
                 return true;
             }
         }
@@ -205,6 +208,10 @@ impl Environment {
     fn in_outermost_scope(&self) -> bool {
         assert!(!self.scopes.is_empty());
         self.scopes.len() == 1
+    }
+
+    fn declared(&self) -> HashSet<(Scope, String)> {
+        self.locals.keys().cloned().collect()
     }
 
     fn count_locals(&self) -> usize {
@@ -334,11 +341,18 @@ impl Compiled for AST {
 
                 (**condition).compile_into(program, active_buffer, global_environment, current_frame, true)?;
                 active_buffer.emit(OpCode::Branch { label: consequent_label_index } );
+                // The alternative is compiled first, but what it declares must not be visible in the consequent.
+                let declared_before = environment_of(current_frame, global_environment).declared();
                 (**alternative).compile_into(program, active_buffer, global_environment, current_frame, keep_result)?;
+                let declared_by_alternative: HashSet<(Scope, String)> =
+                    environment_of(current_frame, global_environment).declared()
+                        .difference(&declared_before).cloned().collect();
+                environment_of(current_frame, global_environment).hidden.extend(declared_by_alternative.iter().cloned());
                 active_buffer.emit(OpCode::Jump { label: end_label_index } );
                 active_buffer.emit(OpCode::Label { name: consequent_label_index });
                 //program.labels.set(consequent_label, program.code.current_address())?;
                 (**consequent).compile_into(program, active_buffer, global_environment, current_frame, keep_result)?;
+                environment_of(current_frame, global_environment).hidden.retain(|key| !declared_by_alternative.contains(key));
                 active_buffer.emit(OpCode::Label { name: end_label_index });
                 //program.labels.set(end_label, program.code.current_address())?;
             }
@@ -638,6 +652,13 @@ impl Compiled for AST {
         };
 
         Ok(())
+    }
+}
+
+fn environment_of<'a>(current_frame: &'a mut Frame, global_environment: &'a mut Environment) -> &'a mut Environment {
+    match current_frame {
+        Frame::Local(environment) => environment,
+        Frame::Top => global_environment,
     }
 }
 
